@@ -80,7 +80,8 @@ func newWorld(r *rand.Rand, o worldOpts) *World {
 	all := gen.Names(r, nrec+nbas+nunk, o.Names)
 	var altCC byte
 	if o.AltComment && r.Intn(6) == 0 {
-		altCC = []byte{';', '/', '`', '%', '!'}[r.Intn(5)]
+		// incl. characters above 127: the comment character is one byte of the file, not a code point
+		altCC = []byte{';', '/', '`', '%', '!', 0xa7, 0xa7, 0xff}[r.Intn(8)]
 		for _, n := range all {
 			if n[0] == altCC {
 				altCC = 0
